@@ -294,6 +294,7 @@ func (c *RemoteClient) Ready(ctx context.Context, nextMessageID uint64) error {
 	if err := c.sendDirect(ctx, &Message{Payload: m}); err != nil {
 		return err
 	}
+	verifhook.At(ctx, "client.ready.sent")
 
 	c.handshakeComplete.Store(true)
 	logger.Info(ctx, "Marked handshake complete")
